@@ -85,19 +85,22 @@ func rowListToMap(rows []types.RowImage, primaryKeyList []string) map[string]map
 	for _, row := range rows {
 		fieldMap := make(map[string]interface{}, 0)
 		var rowKey string
-		var firstUnderline bool
 
-		for _, column := range row.Columns {
-			for i, key := range primaryKeyList {
-				if column.ColumnName == key {
-					if firstUnderline && i > 0 {
+		// the key text: the values of the key columns in the order of the key, whatever order the image
+		// lists its columns in (an INSERT records them as the statement names them)
+		for i, key := range primaryKeyList {
+			for _, column := range row.Columns {
+				if strings.EqualFold(column.ColumnName, key) {
+					if i > 0 {
 						rowKey += "_##$$_"
 					}
 					// todo make value more accurate
 					rowKey = rowKey + primaryKeyText(column.GetActualValue())
-					firstUnderline = true
+					break
 				}
 			}
+		}
+		for _, column := range row.Columns {
 			fieldMap[strings.ToUpper(column.ColumnName)] = column.Value
 		}
 		rowMap[rowKey] = fieldMap
